@@ -25,8 +25,18 @@ class AnalysisError(Exception):
     understood grammar, instance count below the floor).  Never a verdict."""
 
 
+_SRC_CACHE: Dict[int, Any] = {}
+
+
 def src(node: ast.AST) -> str:
-    return ast.unparse(node)
+    """ast.unparse, memoised per node object (nodes are treated as immutable once built)"""
+    k = id(node)
+    hit = _SRC_CACHE.get(k)
+    if hit is not None and hit[0] is node:
+        return hit[1]
+    text = ast.unparse(node)
+    _SRC_CACHE[k] = (node, text)
+    return text
 
 
 def norm_construct(text: str) -> str:
